@@ -176,6 +176,33 @@ type column interface {
 	IsJSON() bool
 	JSONOf() string           // harness's own json.Marshal(Val): hex | fail
 	DecInto(pt []byte) string // harness's own json.Unmarshal(pt, &shadow): "<tok>:<0|1>"
+	// FreshScan: the REAL Scan of src into a fresh zero column of the same T (and key):
+	// "<Val tok>,<Valid>,<result class>". This is the property's Scan(Value(x)) without any prior
+	// receiver state, so the specification can judge a Value() output on its own.
+	FreshScan(src []byte) string
+	// SelfRT: is Val JSON-representable? the harness's own Marshal, then Unmarshal into a fresh T:
+	// "<tok>,1" | fail | na (T is not serialised with encoding/json)
+	SelfRT() string
+}
+
+func freshResult(tok func() string, valid func() bool, scan func() error) string {
+	var err error
+	if p := vlib.Catch(func() { err = scan() }); p != "" {
+		return "na,0,panic"
+	}
+	return tok() + "," + b01(valid()) + "," + classify(err)
+}
+
+func selfRT[T any](cd codec[T], v T) string {
+	b, err := json.Marshal(v)
+	if err != nil {
+		return "fail"
+	}
+	var f T
+	if json.Unmarshal(b, &f) != nil {
+		return "fail"
+	}
+	return cd.render(f) + ",1"
 }
 
 // shadow: a second value of T that only ever sees the harness's own encoding/json calls, applied in
@@ -204,6 +231,17 @@ func (e *encCol[T]) JSONOf() string     { return jsonOf(e.c.Val) }
 func (e *encCol[T]) DecInto(pt []byte) string {
 	return decInto(e.cd, &e.shadow, pt)
 }
+func (e *encCol[T]) FreshScan(src []byte) string {
+	c := sqlx.EncryptColumn[T]{Key: e.c.Key}
+	return freshResult(func() string { return e.cd.render(c.Val) }, func() bool { return c.Valid },
+		func() error { return c.Scan(append([]byte{}, src...)) })
+}
+func (e *encCol[T]) SelfRT() string {
+	if !e.cd.isJSON {
+		return "na"
+	}
+	return selfRT(e.cd, e.c.Val)
+}
 
 type jsonCol[T any] struct {
 	c      sqlx.JsonColumn[T]
@@ -227,6 +265,12 @@ func (e *jsonCol[T]) JSONOf() string     { return jsonOf(e.c.Val) }
 func (e *jsonCol[T]) DecInto(pt []byte) string {
 	return decInto(e.cd, &e.shadow, pt)
 }
+func (e *jsonCol[T]) FreshScan(src []byte) string {
+	var c sqlx.JsonColumn[T]
+	return freshResult(func() string { return e.cd.render(c.Val) }, func() bool { return c.Valid },
+		func() error { return c.Scan(append([]byte{}, src...)) })
+}
+func (e *jsonCol[T]) SelfRT() string { return selfRT(e.cd, e.c.Val) }
 
 // ownJSONErr is the text of the error the harness's own last encoding/json call returned; an error
 // of the real code with the same text is classified err:json whatever its Go type.
@@ -471,14 +515,14 @@ func run(ops []string, out *vlib.Out, st *stats) {
 				if len(ct) >= 12 {
 					nonce = hx(ct[:12])
 				}
-				res = fmt.Sprintf("ok ct=%s nonce=%s pt=%s json=%s", hx(ct), nonce, ownOpen(col.Key(), ct), jo)
+				res = fmt.Sprintf("ok ct=%s nonce=%s pt=%s json=%s fs=%s self=%s", hx(ct), nonce, ownOpen(col.Key(), ct), jo, col.FreshScan(ct), col.SelfRT())
 			default: // json column
 				switch v := dv.(type) {
 				case nil:
 					res = "ok:null json=" + jo
 					stored, haveStored = nil, false
 				case []byte:
-					res = "ok:" + hx(v) + " json=" + jo
+					res = "ok:" + hx(v) + " json=" + jo + " fs=" + col.FreshScan(v) + " self=" + col.SelfRT()
 					stored, haveStored = append([]byte{}, v...), true
 					storedTok, storedKey = col.ValTok(), hx(col.Key())
 				default:
@@ -537,7 +581,10 @@ func run(ops []string, out *vlib.Out, st *stats) {
 				case "stored":
 					data = append([]byte{}, stored...)
 				case "flip":
-					i, _ := strconv.Atoi(arg)
+					i, _ := strconv.Atoi(strings.TrimPrefix(arg, "e"))
+					if strings.HasPrefix(arg, "e") { // counted from the last bit (the generator does not know the length)
+						i = 8*len(stored) - 1 - i
+					}
 					if i < 0 || i >= 8*len(stored) {
 						out.Line("%s => no-stored %s", line, state())
 						continue
@@ -861,6 +908,10 @@ func (g *gen) corruptCase(ty string, allFlips bool) {
 			if i >= 0 {
 				out.Line("scan flip:%d bytes", i)
 			}
+		}
+		// the tag region and the end of the body, counted from the last bit (maxLen is only a bound)
+		for _, k := range []int{0, 1, 7, 8, 63, 64, 120, 127, 128, 129, 135, 136} {
+			out.Line("scan flip:e%d %s", k, vlib.Pick(r, []string{"bytes", "bytes", "string"}))
 		}
 		for k := 0; k < 16; k++ {
 			out.Line("scan flip:%d %s", r.Intn(8*maxLen), vlib.Pick(r, []string{"bytes", "string"}))
